@@ -26,6 +26,8 @@ type GenCfg struct {
 	Sub        bool // create the nested directory d0/sub
 	Symlinks   bool // create symlinks ld0 -> d0, lf -> d0/<name>
 	MaxAdds    int
+	Others     int // up to this many other Watchers with random activity (C14)
+	PAbsorb    int // percent of segments run as absorb segments (needs a buffered channel)
 	MaxNames   int // size of the name pool (default 6)
 	PAddAgain  int // percent of Adds that re-add a path added before (default 25)
 	POnTop     int // percent of chmod/mkdir/rmdir/rename/rmr steps aimed at d0/d1 themselves (default 3)
@@ -76,16 +78,17 @@ func (l *lightFS) mvTree(a, b string) {
 }
 
 type Gen struct {
-	t     *rapid.T
-	cfg   GenCfg
-	fs    lightFS
-	names []string
-	dirs  []string // directories in which entries are manipulated
-	added []string // arguments of successful-looking Adds (generator's guess)
-	held  map[int]bool
-	root  string // placeholder for the absolute root, substituted at run time
-	steps []Step
-	nops  int
+	t       *rapid.T
+	cfg     GenCfg
+	fs      lightFS
+	names   []string
+	dirs    []string // directories in which entries are manipulated
+	added   []string // arguments of successful-looking Adds (generator's guess)
+	held    map[int]bool
+	root    string // placeholder for the absolute root, substituted at run time
+	steps   []Step
+	nops    int
+	nothers int
 }
 
 // AbsRoot is replaced by the real temp root when a case is executed.
@@ -254,10 +257,20 @@ func (g *Gen) Case() *Case {
 
 	target := rapid.IntRange(g.cfg.MinOps, g.cfg.MaxOps).Draw(t, "nops")
 	for g.nops < target {
+		if g.cfg.Others > 0 && g.pct("other", 25) {
+			g.otherStep()
+		}
 		switch {
 		case g.pct("api", g.cfg.PApi):
 			g.apiStep(false)
 			g.nops++
+		case c.Buf > 0 && g.pct("absorb", g.cfg.PAbsorb):
+			g.steps = append(g.steps, Step{K: KAbsorb})
+			k := rapid.IntRange(1, 6).Draw(t, "absorblen")
+			for i := 0; i < k; i++ {
+				g.fsStep()
+			}
+			g.sync()
 		case g.pct("burst", g.cfg.PBurst):
 			k := rapid.IntRange(2, g.cfg.MaxBurst).Draw(t, "burstlen")
 			plug := g.pct("plug", g.cfg.PPlug)
@@ -282,6 +295,27 @@ func (g *Gen) Case() *Case {
 	g.steps = append(g.steps, Step{K: KList})
 	c.Steps = g.steps
 	return c
+}
+
+var capChoices = []int{-1, 0, 1, 2, 4, 8, 16, 64, 256, 1024, 4096, 16384, 65536}
+
+func (g *Gen) otherStep() {
+	t := g.t
+	if g.nothers == 0 || (g.nothers < g.cfg.Others && g.pct("xnew", 30)) {
+		g.steps = append(g.steps, Step{K: KXNew, N: rapid.SampledFrom(capChoices).Draw(t, "xcap")})
+		g.nothers++
+		return
+	}
+	i := rapid.IntRange(0, g.nothers-1).Draw(t, "xidx")
+	p := P(g.pick("xpath", []string{"d0", "d1", "d0/sub", "u", "ld0", g.anyPath("xp")}))
+	switch rapid.IntRange(0, 9).Draw(t, "xkind") {
+	case 0, 1, 2, 3, 4:
+		g.steps = append(g.steps, Step{K: KXAdd, N: i, P: p})
+	case 5, 6, 7:
+		g.steps = append(g.steps, Step{K: KXRemove, N: i, P: p})
+	default:
+		g.steps = append(g.steps, Step{K: KXClose, N: i})
+	}
 }
 
 func (g *Gen) sync() {
